@@ -48,6 +48,13 @@ structure SyncCase where
   refspecForce : Bool
   forcedDsts : List String
   mainOnly : Bool
+  /-- fetch: the concrete (remote ref, destination, '+') triples the refspecs expand to; empty = the
+      command maps heads/* to remotes/origin/* as described by refspecForce / forcedDsts -/
+  specMap : List (String × String × Bool)
+  /-- merge.fastForward of the configuration ("" = not set) -/
+  configFF : String
+  /-- merge: the commit named on the command line (0 = the tip of origin/main after the command) -/
+  mergeTarget : Nat
   lb : RepoObs
   rb : RepoObs
   la : RepoObs
@@ -64,6 +71,14 @@ def syncCaseOf (input impl : Json) : Except String SyncCase := do
            forcedDsts := (match fldD input "forcedDsts" (Json.arr #[]) with
              | .arr a => a.toList.filterMap (fun x => x.getStr?.toOption)
              | _ => []),
+           specMap := (match fldD input "specMap" (Json.arr #[]) with
+             | .arr a => a.toList.filterMap (fun x =>
+                 match (x.getObjValAs? String "src").toOption, (x.getObjValAs? String "dst").toOption with
+                 | some sr, some ds => some (sr, ds, (fldD x "force" (Json.bool false)).getBool?.toOption.getD false)
+                 | _, _ => none)
+             | _ => []),
+           configFF := (fldD input "configFF" (Json.str "")).getStr?.toOption.getD "",
+           mergeTarget := (fldD input "mergeTarget" (jNat 0)).getNat?.toOption.getD 0,
            lb := ← repoObsOf (← fld input "localBefore"), rb := ← repoObsOf (← fld input "remoteBefore"),
            la := ← repoObsOf (← fld v "localAfter"), ra := ← repoObsOf (← fld v "remoteAfter"),
            failed := (fldD v "failed" (Json.bool false)).getBool?.toOption.getD false }
@@ -91,12 +106,30 @@ def handleC09 (_op : String) (input impl : Json) : Except String Json := do
     (if needCommits.all after.commits.contains then [] else ["updated-refs-have-their-full-history"]) ++
     (if needTables.all after.tables.contains then [] else ["tables-present-within-depth"]) ++
     (if after.refs.all (fun p => after.commits.contains p.2) then [] else ["every-ref-resolves"]) ++
+    -- whatever the depth and whatever was already there, a BRANCH that was created or moved (pull, merge;
+    -- push on the remote) points at a commit whose table and blocks are present
+    (if moved.all (fun p => !p.1.startsWith "heads/" || after.tables.contains p.2) then [] else ["moved-branch-head-has-its-table"]) ++
     (if before.commits.all after.commits.contains && before.tables.all after.tables.contains then [] else ["nothing-lost"]) ++
     -- an immediately repeated fetch or push transfers nothing and changes nothing
     (match (v.getObjVal? "local2").toOption, (v.getObjVal? "remote2").toOption with
      | some l2j, some r2j =>
-       -- the clause is about a repeat of a SUCCESSFUL fetch / push
-       if l2j == Json.null || r2j == Json.null || c.failed then [] else
+       if l2j == Json.null || r2j == Json.null then [] else
+       if c.failed then
+         -- the repeat of a FAILED fetch / push is a retry: whatever it moved must be closed in the same
+         -- sense, counted from the state before the first attempt (a failed attempt must not leave
+         -- something behind that makes the retry believe it has everything)
+         match repoObsOf (if c.action == "push" then r2j else l2j) with
+         | .ok a2 =>
+           let moved2 := (changedRefs before a2).filterMap (fun (n, _, b) => b.map (fun x => (n, x)))
+           let tips2 := moved2.map (·.2)
+           let needT2 := (withinDepth c.g depth tips2).filter (fun x => !before.commits.contains x || before.tables.contains x)
+           (if (ancestorsOfAll c.g tips2).all a2.commits.contains then [] else ["updated-refs-have-their-full-history-after-retry"]) ++
+           (if needT2.all a2.tables.contains then [] else ["tables-present-within-depth-after-retry"]) ++
+           (if a2.refs.all (fun p => a2.commits.contains p.2) then [] else ["every-ref-resolves-after-retry"]) ++
+           (if before.commits.all a2.commits.contains && before.tables.all a2.tables.contains then [] else ["nothing-lost-after-retry"])
+         | _ => []
+       else
+       -- the repeat of a SUCCESSFUL fetch / push
        match repoObsOf l2j, repoObsOf r2j with
        | .ok l2, .ok r2 =>
          (if sameObs l2 c.la && sameObs r2 c.ra then [] else ["repeated-run-changes-nothing"]) ++
@@ -113,7 +146,10 @@ def handleC09 (_op : String) (input impl : Json) : Except String Json := do
       -- tags may add commits only if their target is otherwise present; compare on heads' closure as a lower bound and allow tag targets
       let lower := expectCommits heads
       let upper := expectCommits (c.rb.refs.map (·.2))
-      lower.all after.commits.contains && after.commits.all upper.contains && (s lower == s after.commits || true)
+      -- a fetch that FAILED because the sending side could not read one of its objects (an injected
+      -- fault) need not have received anything; what it did receive is still bounded
+      let faulted := (fldD input "fault" (Json.str "")).getStr?.toOption.getD "" != ""
+      ((c.failed && faulted) || lower.all after.commits.contains) && after.commits.all upper.contains && (s lower == s after.commits || true)
     else if c.action == "push" then
       let pushed := (c.lb.ref? "heads/main").toList
       let s := fun (l : List Nat) => l.mergeSort (fun x y => decide (x ≤ y))
@@ -132,7 +168,9 @@ def handleC10 (_op : String) (input impl : Json) : Except String Json := do
   -- which refs may be force-updated by this command
   let forcedRef := fun (side : String) (n : String) =>
     c.action != "merge" && (c.force ||
-      (side == "local" && (c.action == "fetch" && ((c.refspecForce && n.startsWith "remotes/") || c.forcedDsts.contains n))) ||
+      (side == "local" && c.action == "fetch" && c.specMap.isEmpty && ((c.refspecForce && n.startsWith "remotes/") || c.forcedDsts.contains n)) ||
+      -- several refspecs: a destination may be forced only by the '+' of a refspec that yields it
+      (side == "local" && c.action == "fetch" && c.specMap.any (fun m => m.2.1 == n && m.2.2)) ||
       -- `wrgl pull` fetches through the remote's configured refspec (+refs/heads/*:refs/remotes/origin/*)
       (side == "local" && c.action == "pull" && n.startsWith "remotes/"))
   let check := fun (side : String) (before after : RepoObs) =>
@@ -152,11 +190,15 @@ def handleC10 (_op : String) (input impl : Json) : Except String Json := do
          | none => ["update-logged-with-true-old-and-new"])
       | _, none => if forcedRef side n || c.action == "push" then [] else ["ref-not-deleted"])
   -- model: the decision for each ref the command considers
-  let modelLocal : List (String × RefDecision) :=
-    if c.action == "fetch" then
+  -- (destination, the remote ref it comes from, decision)
+  let modelLocal : List (String × String × RefDecision) :=
+    if c.action == "fetch" && !c.specMap.isEmpty then
+      c.specMap.filterMap (fun (src, dst, f) => (c.rb.ref? src).map (fun v =>
+        (dst, src, fetchDecision (c.lb.ref? dst) v (isTag dst) (c.force || f) isAnc)))
+    else if c.action == "fetch" then
       (c.rb.refs.filter (fun p => p.1.startsWith "heads/" && (!c.mainOnly || p.1 == "heads/main"))).map (fun p =>
         let dst := "remotes/origin/" ++ (p.1.drop 6).toString
-        (dst, fetchDecision (c.lb.ref? dst) p.2 false (c.force || c.refspecForce || c.forcedDsts.contains dst) isAnc))
+        (dst, p.1, fetchDecision (c.lb.ref? dst) p.2 false (c.force || c.refspecForce || c.forcedDsts.contains dst) isAnc))
     else []
   let modelRemote : List (String × RefDecision) :=
     if c.action == "push" then
@@ -170,21 +212,30 @@ def handleC10 (_op : String) (input impl : Json) : Except String Json := do
     | .unchanged => after.ref? d.1 == before.ref? d.1
     | .reject => after.ref? d.1 == before.ref? d.1
   let agreeFetch := modelLocal.all (fun d =>
-    decisionHolds c.lb c.la d (c.rb.ref? ("heads/" ++ (d.1.drop 15).toString)))
+    decisionHolds c.lb c.la (d.1, d.2.2) (c.rb.ref? d.2.1))
   -- a push that the CLI decided to send may still be refused by the remote (denyNonFastForwards): accept both
   let agreePush := modelRemote.all (fun d => match d.2 with
     | .update => c.ra.ref? d.1 == c.lb.ref? "heads/main" || c.ra.ref? d.1 == c.rb.ref? d.1
     | _ => c.ra.ref? d.1 == c.rb.ref? d.1)
   -- rejected updates are reported: a fetch with a rejected ref fails
   let rejectedReported :=
-    if c.action == "fetch" && modelLocal.any (fun d => d.2 == .reject) then c.failed else true
+    if c.action == "fetch" && modelLocal.any (fun d => d.2.2 == .reject) then c.failed else true
   -- merge / pull: fast-forward moves the branch exactly to the other commit
   let mergeViol : List String :=
     if c.action == "merge" || c.action == "pull" then
-      match c.lb.ref? "heads/main", c.la.ref? "remotes/origin/main" with
+      match c.lb.ref? "heads/main", (if c.mergeTarget != 0 then some c.mergeTarget else c.la.ref? "remotes/origin/main") with
       | some h, some o =>
-        let mode := if c.ffMode == "no-ff" then FFMode.never else if c.ffMode == "ff-only" then FFMode.only else FFMode.default_
-        if h != o && isAnc h o then
+        -- the mode in force: the flag on the command line when one is given, merge.fastForward otherwise
+        let flag : Option FFMode := if c.ffMode == "no-ff" then some .never else if c.ffMode == "ff-only" then some .only
+          else if c.ffMode == "ff" then some .default_ else none
+        let config : Option FFMode := if c.configFF == "never" then some .never else if c.configFF == "only" then some .only else none
+        let mode := effectiveFF flag config
+        if !c.la.tables.contains o then
+          -- the table of the commit to merge is absent (beyond the depth of the fetch that brought it):
+          -- no branch may be moved onto it or onto a commit made from it; the refusal is reported
+          (if c.la.ref? "heads/main" == some h then [] else ["merge-never-moves-a-branch-onto-a-commit-without-its-table"]) ++
+          (if !isAnc o h && !c.failed then ["refused-merge-is-reported"] else [])
+        else if h != o && isAnc h o then
           -- a fast-forward situation
           (match mode with
            | .never => (match c.la.ref? "heads/main" with
